@@ -33,6 +33,14 @@ def explicit(tier, seed):
                        "faults": [{"match": {"op": "checkpoint", "n": k}, "err": ERR, "when": rng.choice(["before", "before", "after"]), "delay_ms": delay}],
                        "opts": {"hang_s": 3.0}}
                 i += 1
+            # the same failure while the thread that signals (sets an event, puts on a queue, releases a lock) loses the CPU right after
+            # doing so: a waiter woken by the flag must still see the failure that goes with it
+            for rep in range(1 if tier == "quick" else 3):
+                yield {"label": "fault-after-sync-" + name, "prog": {"body": body}, "prog_seed": 23000 + i, "pattern": {"p": "plain"}, "max_inv": 20,
+                       "faults": [{"match": {"op": "checkpoint", "n": k}, "err": ERR, "when": "before"}],
+                       "opts": {"hang_s": 3.0, "perturb": {"p": 0.0, "seed": i, "files": ["threading.py", "state.py", "executor.py"],
+                                                           "after_sync": {"p": 0.8, "sleep": 0.003}}}}
+                i += 1
 
 
 SPEC = Spec(
@@ -42,7 +50,7 @@ SPEC = Spec(
     "crash point of a small-program corpus, random multi-crash, asynchronous SIGKILL, yield injection}; every ret/exc delivered to user code and every PENDING outcome is checked, at the instant the single-threaded parent receives it, against the backend table (terminal record / armed wake source / EXECUTION record). Non-trivial = at least one delivery was checked. "
     "Additional hand-written shapes: parallel steps whose 260-450 KB results cannot share a 750 KB batch (overflow queue) under 0-40 ms "
     "backend latency, 800 KB sequential steps, and a failing checkpoint request (answered at once or left in flight 25 ms while "
-    "further blocking records queue up) at every call position. A class = (program shape hash, interruption pattern, event kind at "
+    "further blocking records queue up) at every call position, also under after-sync perturbation (the signalling thread is descheduled right after Event.set / Queue.put / lock release). A class = (program shape hash, interruption pattern, event kind at "
     "which the crash landed).",
     deciding=lambda r: True,
     explicit=explicit,
